@@ -27,6 +27,8 @@ def apply_img_op(x, o: Dict[str, Any], variant: int = 0):
     if op == "resample":
         return x.resample(fl(F(o["h"])))
     if op == "downsample":
+        if variant % 3 == 2 and o["min"] <= 1:  # the documented equivalent: upsampling by a negative number of levels
+            return x.upsample(-o["levels"], dims=o["dims"] or None, sigma=0, **ac_kw(o))
         return x.downsample(o["levels"], dims=o["dims"] or None, sigma=0, min_size=o["min"], **ac_kw(o))
     if op == "upsample":
         return x.upsample(o["levels"], dims=o["dims"] or None, **ac_kw(o))
@@ -171,6 +173,20 @@ def check_chain(ctx: Ctx, c: Dict[str, Any], variant: int = 0) -> None:
                                   f"{what}: the original image sampled on the derived grid (align_corners={tg.align_corners()}) is off the ramp by {err:.3g} "
                                   f"on {int(m.sum())} samples inside the field of view", c)
                     return
+            if kind == "batch2":  # one SHARED target that happens to be the first image's own grid: the second image still has to move there
+                y = x0.sample(base, mode="linear", padding="border")
+                w = base.index_to_world(base.coords(normalize=False).to(torch.float32)).to(torch.float64).reshape(-1, D)
+                m = inside_hull(base2, w, margin_index=0.05)
+                if len(y.grids()) != 2 or not same_grid(y.grids()[1], base):
+                    ctx.violation(dict(**sig, attr="sample_grid", item=1), f"{what}: batch sampled on one shared grid does not carry that grid for every image", c)
+                    return
+                if int(m.sum()) > 0:
+                    expv = w @ a + b
+                    err = float((y.tensor()[1, 0].reshape(-1).to(torch.float64) - expv)[m].abs().max())
+                    if err > 3e-4 * max(1.0, float(expv.abs().max())):
+                        ctx.violation(dict(**sig, attr="sample_data", item=1, shared=True),
+                                      f"{what}: second image of a batch sampled on the first image's grid is off the ramp by {err:.3g} on {int(m.sum())} samples", c)
+                        return
         except Exception as ex:
             ctx.violation(dict(**sig, attr="sample", exc=type(ex).__name__), f"{what}: sample() on the derived grid raised {type(ex).__name__}: {str(ex)[:120]}", c)
             return
